@@ -1,9 +1,58 @@
+import re as _re
+
+
+def _region(path):
+    s = open(path).read()
+    a = s.index("let mut out = Poll::Pending;")
+    b = s.index("me.poll_cursor = 0;", a)
+    return s[a:b]
+
+
+def _match_part(t):
+    m = _re.search(r"match .*?\n\s*\}\n\s*\n\s*// Check if we've completed a full round", t, flags=_re.S)
+    return m.group(0) if m else None
+
+
+def _norm(t):
+    t = _re.sub(r"//[^\n]*", "", t)
+    t = t.replace("active_connections", "sources")
+    t = _re.sub(r"let source = &mut me\.sources\[me\.poll_cursor\];", "SLOT;", t)
+    t = _re.sub(r"let id_and_stream = &mut me\.sources\[me\.poll_cursor\];\s*let \(connection_id, stream\) = id_and_stream\.as_mut\(\)\.unwrap\(\);\s*let connection_id = \*connection_id;", "SLOT;", t)
+    t = _re.sub(r"match .*?\n\s*\}\n\s*\n\s*if me\.poll_cursor == start_cursor", "MATCH if me.poll_cursor == start_cursor", t, flags=_re.S)
+    t = _re.sub(r"\|conn\|", "|source|", t)
+    t = _re.sub(r"\bconn\.", "source.", t)
+    return _re.sub(r"\s+", " ", t).strip()
+
+
+def translate(ctx):
+    """T-tie for the part that cannot be driven without sockets: MultiConnectionSource::poll_next
+    repeats MergeSource's round-robin loop; the cursor arithmetic of both is re-extracted from the
+    current source and must be identical up to the field name (the per-source match differs by design:
+    it is only checked to keep its three effects)."""
+    base = ctx["repo"] + "/hydro_deploy/hydro_deploy_integration/src/"
+    res = []
+    try:
+        ra, rb = _region(base + "lib.rs"), _region(base + "multi_connection.rs")
+        a, b = _norm(ra), _norm(rb)
+        res.append(("MultiConnectionSource round-robin loop == MergeSource loop (cursor arithmetic, retain fix-up)",
+                    a == b and "MATCH" in a, "" if a == b else "the two loops differ: " + a[:120] + " | " + b[:120]))
+        ok = True
+        for r in (ra, rb):
+            m = _match_part(r)
+            ok = ok and m is not None and "break;" in m and "any_removed = true;" in m and "= None;" in m and "Poll::Pending => {}" in m
+        res.append(("per-source match keeps its effects (item -> break, end -> mark None + any_removed, Pending -> continue)", ok, ""))
+    except Exception as ex:  # a fragment that cannot be found is a broken tie
+        res.append(("MultiConnectionSource twin loop extraction", False, repr(ex)))
+    return res
+
+
 SPEC = dict(
     id="C15",
     lean_project="HvSink", props_module="HvSink.Props.C15", driver="hvdrv_sink",
     harness="hv_sink", bin="hv_sink", mode="c15",
     cases={"quick": 1500, "thorough": 30000},
     level="proof",
+    translate=translate,
     design_ref="DESIGN.md §5 C15",
     technique="Lean 4 refinement proof (cursor/retain arithmetic of MergeSource::poll_next -> queue semantics) + invariants over all scripts, tied to the real MergeSource/TaggedSource by a line-by-line correspondence through a cfg-guarded constructor hook",
     level_text=("Model: MergeSource::poll_next transcribed line by line (round-robin loop with poll_cursor=(poll_cursor+1)%len, deferred "
@@ -20,7 +69,7 @@ SPEC = dict(
                 "clauses are evaluated on the real code by an independent oracle."),
     level_note=("Trusted: Lean kernel; scripted streams stand for network streams (a Stream is a script of Poll values; wakers are not "
                 "modelled for this property); Pin/Box erased. MultiConnectionSource::poll_next contains a textual twin of the same loop "
-                "(needs live sockets): not exercised, not claimed."),
+                "(needs live sockets): not exercised; a translator step re-extracts both loops on every run and requires their cursor arithmetic to be textually identical."),
     trusted_base=["cfg-guarded hook MergeSource::verif_new/verif_state, TaggedSource::verif_new (constructs exactly what from_defn constructs)"],
     assumptions=["sender ids (tags) are pairwise distinct", "a source is not polled again after it returned None (MergeSource drops it; checked by the harness)"],
 )
